@@ -23,6 +23,7 @@ PROPERTY Monotone
 PROPERTY OverclaimIgnored
 PROPERTY PublishEmitsFullVector
 PROPERTY EmitsOnlyLocal
+PROPERTY OutdatedStartsSuppression
 PROPERTY HeardIsMerge
 CONSTRAINT Mark
 POSTCONDITION Post
